@@ -35,7 +35,7 @@ class FnContract:
     def __init__(self, key, file=None, qual=None, params=None, free=None, returns='any', is_async=False, suspends=None,
                  requires=(), ensures=(), raises=(), modifies=(), ghost_modifies=(), loops=None, callsites=None,
                  locals=None, cancellable=None, interference=None, assume_asserts=(), trusted=False, pure=False,
-                 self_cls=None, notes='', path_budget=4000, spec_term=None, exits_ensure=(), varkw=None, allocates=True):
+                 self_cls=None, notes='', path_budget=4000, spec_term=None, exits_ensure=(), varkw=None, allocates=True, cancel_must_propagate=False):
         self.key = key
         self.file = file
         self.qual = qual
@@ -62,6 +62,7 @@ class FnContract:
         self.path_budget = path_budget
         self.spec_term = spec_term   # pure property: expression over `self` (str) or callable(ex, selfV) -> V
         self.varkw = varkw
+        self.cancel_must_propagate = cancel_must_propagate
         self.allocates = allocates
         self.exits_ensure = [Clause.of(c) for c in exits_ensure]   # must hold on every exit (normal or exceptional)
 
